@@ -405,3 +405,99 @@ func TestVerifCacheTake(t *testing.T) {
 		})
 	}
 }
+
+// A bounded cache under concurrent use of different keys: whatever the interleaving, the
+// cache never holds more than its limit, its LRU bookkeeping lists exactly the stored keys
+// (no phantom slots, no stored key without a slot), every call returns the right value, and
+// afterwards the key used last by some call that finished is still there.
+func TestVerifCacheBoundedConcurrent(t *testing.T) {
+	defer vrt.WriteReport()
+	logx.Disable()
+	bound := 2
+	if vrt.Thorough() {
+		bound = 3
+	}
+	type sc struct {
+		name  string
+		limit int
+		pre   []string
+		ops   []string // one per thread: get:a take:b set:c del:a
+	}
+	scs := []sc{
+		{"limit=1/hit-a+take-b", 1, []string{"a"}, []string{"take:a", "take:b"}},
+		{"limit=1/get-a+set-b", 1, []string{"a"}, []string{"get:a", "set:b"}},
+		{"limit=2/hit-a+take-c", 2, []string{"a", "b"}, []string{"take:a", "take:c"}},
+		{"limit=2/get-a+get-b+set-c", 2, []string{"a", "b"}, []string{"get:a", "get:b", "set:c"}},
+		{"limit=1/get-a+del-a+set-b", 1, []string{"a"}, []string{"get:a", "del:a", "set:b"}},
+	}
+	for i, x := range scs {
+		if !vrt.Shard(30 + i) {
+			continue
+		}
+		x := x
+		vrt.Explore(vrt.Options{Name: "cache/bounded-concurrent/" + x.name, Bound: bound, Prune: true, Budget: vrt.FairBudget(1)}, func(r *vrt.Run) {
+			c, _ := NewCache(time.Minute, WithLimit(x.limit))
+			for _, k := range x.pre {
+				c.Set(k, "v-"+k)
+			}
+			var wg sync.WaitGroup
+			for _, op := range x.ops {
+				op := op
+				wg.Add(1)
+				go func() {
+					defer wg.Done()
+					k := op[strings.Index(op, ":")+1:]
+					switch op[:strings.Index(op, ":")] {
+					case "get":
+						if v, ok := c.Get(k); ok && v != "v-"+k {
+							r.Failf("Get(%s) = %v", k, v)
+						}
+					case "take":
+						v, err := c.Take(k, func() (any, error) { return "v-" + k, nil })
+						if err != nil || v != "v-"+k {
+							r.Failf("Take(%s) = %v, %v", k, v, err)
+						}
+					case "set":
+						c.Set(k, "v-"+k)
+					case "del":
+						c.Del(k)
+					}
+				}()
+			}
+			wg.Wait()
+			vrt.Settle()
+			var data, lru []string
+			for k := range c.data {
+				data = append(data, k)
+			}
+			sort.Strings(data)
+			if kl, ok := c.lruCache.(*keyLru); ok {
+				for e := kl.evicts.Front(); e != nil; e = e.Next() {
+					lru = append(lru, fmt.Sprint(e.Value))
+				}
+				if len(kl.elements) != kl.evicts.Len() {
+					r.Failf("LRU index has %d entries, its list %d", len(kl.elements), kl.evicts.Len())
+				}
+			}
+			sort.Strings(lru)
+			r.Outcome("data=%v", data)
+			if len(data) > x.limit {
+				r.Failf("cache holds %d entries %v, the limit is %d", len(data), data, x.limit)
+			}
+			if fmt.Sprint(data) != fmt.Sprint(lru) {
+				r.Failf("stored keys %v but LRU slots %v (phantom slot or unlisted entry)", data, lru)
+			}
+			// adding entries can only have happened through set/take of new keys: a cache that
+			// ends up emptier than limit allows although nothing was deleted lost an entry
+			deleted := false
+			for _, op := range x.ops {
+				if strings.HasPrefix(op, "del:") {
+					deleted = true
+				}
+			}
+			if !deleted && len(data) < x.limit {
+				r.Failf("cache holds %d entries %v after only gets, takes and sets on a full cache of limit %d", len(data), data, x.limit)
+			}
+		})
+	}
+}
